@@ -352,7 +352,10 @@ def run(tier, seed):
                 M = Matcher(nf)
                 for s in stores_to_field(mod, RD, "curr_file_type", [nf]):
                     if is_const(s.ops[0]) and const_val(s.ops[0]) == FAKE:
-                        cs = [x for x in stores_to_field(mod, RD, "curr_file", [nf]) if x.block.id == s.block.id]
+                        # the curr_file store this type belongs to: the nearest one that dominates the type store
+                        cs = [x for x in stores_to_field(mod, RD, "curr_file", [nf]) if (x.block.id == s.block.id and x.idx < s.idx) or
+                              (x.block.id != s.block.id and nf.dominates(x.block.id, s.block.id))]
+                        cs = [x for x in cs if not any(y is not x and ((y.block.id == x.block.id and y.idx > x.idx) or (y.block.id != x.block.id and nf.dominates(x.block.id, y.block.id))) for y in cs)]
                         rep.check(rid, len(cs) == 1 and M.match(("load", ("field", RD, "dir_stack", ("param", 0))), cs[0].ops[0], {}) is not None,
                                   "FAKE_DIR entry is popped from dir_stack", s.where(), None, function=nf.cname, obj="fake-source")
         # ---- R6c: link-following metadata setters only on objects created by this very call ---------------------------------------
